@@ -66,7 +66,10 @@ def faults(res, ctx, rng):
                     continue
                 recs = []
                 for k in combo:
-                    recs.append((k, rng.getrandbits(40), rng.randrange(256), rng.randrange(1, 12), rng.randrange(1, 99999)))
+                    recs.append((k, rng.choice((rng.getrandbits(40), 0, (1 << 64) - 1)) if rng.random() < 0.2 else rng.getrandbits(40),
+                                 rng.randrange(256), rng.randrange(1, 12),
+                                 rng.choice((0, 0, 1, (1 << 31) - 1, 1 << 31, (1 << 32) - 1, 1 << 32, (1 << 64) - 1))
+                                 if rng.random() < 0.3 else rng.randrange(1, 99999)))
                 nested = with_noise(rng, [H.real_fault(k, va, pr, ft, pid) for k, va, pr, ft, pid in recs])
                 addr = rng.getrandbits(44)
                 is_kernel = rng.randrange(2)
